@@ -113,6 +113,18 @@ func C13(c *Ctx) {
 	for i, rg := range ranges {
 		c.mapRangeRule(sprintf("%s:maprange%d", FnKey(rg.Parent()), i+1), rg)
 	}
+	ctl := func(pc *Ctx) {
+		for i, rg := range pc.mapRanges() {
+			pc.mapRangeRule(sprintf("%s:maprange%d", FnKey(rg.Parent()), i+1), rg)
+		}
+	}
+	c.positive("C13-2", "first-key-wins", ctl, []string{"runner.FirstKey"}, nil)
+	c.positive("C13-2", "unsorted-collection", ctl, []string{"runner.Keys"}, []string{"runner.SortedKeys"})
+	c.positive("C13-1", "goroutine", func(pc *Ctx) {
+		for _, in := range pc.concurrencyOps() {
+			pc.R.Check("C13-1", FnKey(in.Parent())+":concurrency", pc.InstrPos(in), false, "goroutine / channel operation")
+		}
+	}, []string{"runner.Spawn"}, nil)
 }
 
 func (c *Ctx) mapRangeRule(key string, rg *ssa.Range) {
